@@ -208,9 +208,81 @@ def aborted_then_resumed(case):
     return result
 
 
+def embedded_clock(case):
+    """the SimPy-style layer keeps the same time: an environment embedded in a native simulation
+    begins at its initial time (the native clock may be younger), its timeouts end exactly their
+    delay later on both clocks, native waits made meanwhile resume at their dates"""
+    import usim
+    import usim.py as usimpy
+    from usim import time, Scope
+    rng = random.Random('%s/%s/c01-env' % (case['seed'], case['index']))
+    start = rng.choice([0, 0, 2, -1])
+    initial = start + rng.choice([0, 0, 1.5, 4])
+    enter_after = rng.choice([0, 0, 0.5, 1])
+    delays = [rng.choice([0.5, 1, 2.25]) for _ in range(rng.randint(1, 3))]
+    log = []
+    env = usimpy.Environment(initial)
+
+    def process(env, number, early):
+        log.append(('process begins', number, env.now, time.now))
+        for delay in delays:
+            yield env.timeout(delay + number)
+            log.append(('timeout over', number, env.now, time.now))
+
+    n_early = rng.randint(0, 2)
+    for number in range(n_early):
+        env.process(process(env, number, True))
+
+    async def native(number):
+        await (time + (number + 0.25))
+        log.append(('native', number, time.now))
+
+    async def main():
+        async with Scope() as scope:
+            for number in range(2):
+                scope.do(native(number))
+            await (time + enter_after)
+            async with env:
+                log.append(('entered', env.now, time.now))
+                for number in range(n_early, n_early + rng.randint(0, 2)):
+                    env.process(process(env, number, False))
+                await (time + 12)
+
+    sess = Session()
+    outcome = sess.run(main(), start=start)
+    violations = [dict(v) for v in sess.violations if v['mechanism'].startswith('kernel-')]
+    begin = max(initial, start + enter_after)
+    want = {('entered', begin, begin)}
+    n_processes = len({entry[1] for entry in log if entry[0] == 'process begins'})
+    for number in range(n_processes):
+        want.add(('process begins', number, begin, begin))
+        now = begin
+        for delay in delays:
+            now = now + (delay + number)
+            want.add(('timeout over', number, now, now))
+    for number in range(2):
+        want.add(('native', number, start + number + 0.25))
+    what = 'environment(initial_time=%r) entered at %r in a simulation started at %r' % (
+        initial, start + enter_after, start)
+    if outcome[0] != 'ok':
+        violations.append({'mechanism': 'run-failed', 'msg': '%s: %r' % (what, outcome[1])})
+    elif set(log) != want:
+        odd = sorted(set(log) ^ want, key=repr)
+        violations.append({'mechanism': 'wrong-resume-time',
+                           'msg': '%s: entries that are logged but not expected, or expected but '
+                                  'not logged: %s' % (what, odd[:6])})
+    for vio in violations:
+        vio['case'] = dict(case)
+    return {'evals': 1, 'sigs': [sess.signature()], 'violations': violations, 'sample': None,
+            'stats': {'embedded_environments': 1, 'waits_checked': len(log),
+                      'activations': sess.n}}
+
+
 def run_case(case):
     if case['index'] % 10 == 3 and not case.get('program'):
         return aborted_then_resumed(case)
+    if case['index'] % 20 == 7 and not case.get('program'):
+        return embedded_clock(case)
     program = case.get('program') or build(case)
     result = run_once(case, program, None)
     shared = result.pop('shared')
